@@ -98,6 +98,18 @@ let rec flat_map f = function
 | [] -> []
 | x :: t -> app (f x) (flat_map f t)
 
+(** val existsb : ('a1 -> bool) -> 'a1 list -> bool **)
+
+let rec existsb f = function
+| [] -> false
+| a :: l0 -> (||) (f a) (existsb f l0)
+
+(** val forallb : ('a1 -> bool) -> 'a1 list -> bool **)
+
+let rec forallb f = function
+| [] -> true
+| a :: l0 -> (&&) (f a) (forallb f l0)
+
 (** val filter : ('a1 -> bool) -> 'a1 list -> 'a1 list **)
 
 let rec filter f = function
@@ -1981,7 +1993,7 @@ let rec json_eq a b =
   | JObj x ->
     (match b with
      | JObj y ->
-       (&&) (Nat.eqb (length x) (length y))
+       (&&)
          (let rec go = function
           | [] -> true
           | p :: x' ->
@@ -1990,6 +2002,7 @@ let rec json_eq a b =
              | Some v' -> (&&) (json_eq v v') (go x')
              | None -> false)
           in go x)
+         (forallb (fun k -> existsb (str_eqb k) (map fst x)) (map fst y))
      | _ -> false)
 
 (** val c_eq : comparand -> comparand -> bool **)
@@ -2426,6 +2439,37 @@ let op_sem r =
      | None -> bad_request)
   | None -> bad_request
 
+(** val dec_comparand : comparand dec **)
+
+let dec_comparand = function
+| [] -> None
+| z0 :: r ->
+  (match z0 with
+   | Z0 -> Some (Nothing, r)
+   | Zpos p ->
+     (match p with
+      | XH ->
+        (match dec_json r with
+         | Some p0 -> let (v, r') = p0 in Some ((Val v), r')
+         | None -> None)
+      | _ -> None)
+   | Zneg _ -> None)
+
+(** val op_cmp : z list -> z list **)
+
+let op_cmp r =
+  match dec_cmpop r with
+  | Some p ->
+    let (o, r0) = p in
+    (match dec_comparand r0 with
+     | Some p0 ->
+       let (a, r1) = p0 in
+       (match dec_comparand r1 with
+        | Some p1 -> let (b, _) = p1 in enc_bool (cmp o a b)
+        | None -> bad_request)
+     | None -> bad_request)
+  | None -> bad_request
+
 (** val dispatch : z list -> z list **)
 
 let dispatch = function
@@ -2502,6 +2546,22 @@ let dispatch = function
          | XH -> op_find r)
       | XO p0 ->
         (match p0 with
+         | XI p1 ->
+           (match p1 with
+            | XO p2 ->
+              (match p2 with
+               | XI p3 ->
+                 (match p3 with
+                  | XO p4 ->
+                    (match p4 with
+                     | XI p5 ->
+                       (match p5 with
+                        | XH -> op_cmp r
+                        | _ -> bad_request)
+                     | _ -> bad_request)
+                  | _ -> bad_request)
+               | _ -> bad_request)
+            | _ -> bad_request)
          | XO p1 ->
            (match p1 with
             | XI p2 ->
@@ -2536,6 +2596,6 @@ let dispatch = function
                      | i :: _ -> enc_sel (m_index_select (iota_json len) i)))
                | _ -> bad_request)
             | XH -> bad_request)
-         | _ -> bad_request)
+         | XH -> bad_request)
       | XH -> bad_request)
    | _ -> bad_request)
